@@ -130,8 +130,8 @@ def check(run):
     try:
         inputs = []
         shipped = sorted(glob.glob(os.path.join(common.REPO, "examples", "jsons-solc", "*.json_solc")), key=os.path.getsize)
-        inputs += shipped[:2 if quick else 6]
-        for k in range(3 if quick else 12):
+        inputs += shipped[:2 if quick else 4]
+        for k in range(3 if quick else 9):
             p = os.path.join(work, "synth%d.json_solc" % k)
             docgen.dump(docgen.document(rng.getrandbits(32), nblocks=rng.randint(4, 9), with_noasm=(k % 2 == 0), max_len=16,
                                         multi_data=(k % 2 == 0), twin=(k % 3 == 1), failing=(k % 3 == 2)), p)
@@ -139,44 +139,57 @@ def check(run):
         optsets = [["-greedy"], ["-greedy", "-size", "-push0"]] if quick else [["-greedy"], ["-greedy", "-size"], ["-greedy", "-storage"],
                                                                                  ["-greedy", "-partition", "-length"], ["-greedy", "-push0"],
                                                                                  ["-ub-greedy", "-solver", "z3"]]
-        ntamper = 6 if quick else 25
+        ntamper = 6 if quick else 14
         evaluations, nontrivial = 0, 0
         pending_pairs, pending_meta = [], []
-        for path in inputs:
+        import threading
+        from concurrent.futures import ThreadPoolExecutor
+        lock = threading.Lock()
+        counters = {"evaluations": 0, "nontrivial": 0}
+
+        def unit(job):
+            path, oi, opts, urng = job
+            rng = urng                       # every unit has its own generator (derived from the run's seed)
             base = os.path.basename(path).split(".")[0]
-            for oi, opts in enumerate(optsets):
+            evaluations, nontrivial = 0, 0
+            try:
                 if "-solver" in opts and os.path.getsize(path) > 60000:
-                    continue
+                    return
                 d = os.path.join(work, "%s_o%d" % (base, oi))
                 os.makedirs(d)
                 rc, out = run_tool([path] + opts + ["-log"], d)
                 evaluations += 1
                 if rc != 0:
-                    dist["optimize-run-failed"] += 1
-                    run.notes.append("optimization run failed on %s %s: %s" % (base, opts, out[-200:]))
-                    continue
+                    with lock:
+                        dist["optimize-run-failed"] += 1
+                        run.notes.append("optimization run failed on %s %s: %s" % (base, opts, out[-200:]))
+                    return
                 logf = os.path.join(d, base + ".log")
                 optf = os.path.join(d, base + "_optimized.json_solc")
                 with open(logf) as fh:
                     log = json.load(fh)
-                dist["log-entries:%s" % ("0" if not log else "1-5" if len(log) <= 5 else "6+")] += 1
+                with lock:
+                    dist["log-entries:%s" % ("0" if not log else "1-5" if len(log) <= 5 else "6+")] += 1
                 rc, out = run_tool([path] + opts + ["-optimize-from-log", logf], d)
                 evaluations += 1
                 repf = os.path.join(d, base + "_optimized_from_log.json_solc")
                 if rc != 0 or not os.path.exists(repf):
-                    dist["replay-own-log:error"] += 1
-                    run.report({"kind": "own-log-rejected", "options": " ".join(opts)},
-                               "replaying the log of the same run on %s %s stops with an error: %s" % (base, opts, out[-300:]),
-                               {"input": path, "options": opts, "log": log, "output": out[-1500:]}, True)
-                    continue
+                    with lock:
+                        dist["replay-own-log:error"] += 1
+                        run.report({"kind": "own-log-rejected", "options": " ".join(opts)},
+                                   "replaying the log of the same run on %s %s stops with an error: %s" % (base, opts, out[-300:]),
+                                   {"input": path, "options": opts, "log": log, "output": out[-1500:]}, True)
+                    return
                 same = open(optf, "rb").read() == open(repf, "rb").read()
-                dist["replay-own-log:%s" % ("identical" if same else "differs")] += 1
+                with lock:
+                    dist["replay-own-log:%s" % ("identical" if same else "differs")] += 1
                 if log:
                     nontrivial += 1
                 if not same:
-                    run.report({"kind": "own-log-differs", "options": " ".join(opts)},
-                               "replay of the run's own log differs from the optimized file on %s %s" % (base, opts),
-                               {"input": path, "options": opts, "log": log}, True)
+                    with lock:
+                        run.report({"kind": "own-log-differs", "options": " ".join(opts)},
+                                   "replay of the run's own log differs from the optimized file on %s %s" % (base, opts),
+                                   {"input": path, "options": opts, "log": log}, True)
                 # tampered logs
                 all_ids = sorted({x for v in log.values() for x in v})
                 orig_blocks = None
@@ -201,21 +214,36 @@ def check(run):
                     evaluations += 1
                     nontrivial += 1
                     if rc != 0 or not os.path.exists(repf):
-                        dist["tampered:%s:error" % kind] += 1
+                        with lock:
+                            dist["tampered:%s:error" % kind] += 1
                         continue
-                    dist["tampered:%s:accepted" % kind] += 1
+                    with lock:
+                        dist["tampered:%s:accepted" % kind] += 1
                     if orig_blocks is None:
-                        orig_blocks = blocks_of(path)
-                    new_blocks = blocks_of(repf)
+                        with lock:                      # the parser keeps module-level state
+                            orig_blocks = blocks_of(path)
+                    with lock:
+                        new_blocks = blocks_of(repf)
                     if len(new_blocks) != len(orig_blocks):
-                        run.report({"kind": "tampered-log-changes-block-structure"}, "tampered log (%s) changes the number of blocks" % kind,
-                                   {"input": path, "options": opts, "log": tl, "tamper": kind}, True)
+                        with lock:
+                            run.report({"kind": "tampered-log-changes-block-structure"}, "tampered log (%s) changes the number of blocks" % kind,
+                                       {"input": path, "options": opts, "log": tl, "tamper": kind}, True)
                         continue
                     for (c1, w1, i1, a), (c2, w2, i2, b) in zip(orig_blocks, new_blocks):
                         if a != b:
-                            pending_pairs.append((a, b))
-                            pending_meta.append({"input": path, "options": opts, "log": tl, "tamper": kind, "contract": c1,
-                                                 "where": w1, "index": i1})
+                            with lock:
+                                pending_pairs.append((a, b))
+                                pending_meta.append({"input": path, "options": opts, "log": tl, "tamper": kind, "contract": c1,
+                                                     "where": w1, "index": i1})
+            finally:
+                with lock:
+                    counters["evaluations"] += evaluations
+                    counters["nontrivial"] += nontrivial
+
+        jobs = [(path, oi, opts, random.Random(rng.getrandbits(64))) for path in inputs for oi, opts in enumerate(optsets)]
+        with ThreadPoolExecutor(max_workers=max(2, min(10, (os.cpu_count() or 4) - 2))) as ex:
+            list(ex.map(unit, jobs))
+        evaluations, nontrivial = counters["evaluations"], counters["nontrivial"]
         run.log("%d tool runs; %d changed blocks from accepted tampered logs to validate" % (evaluations, len(pending_pairs)))
         if pending_pairs:
             seen, up, um = set(), [], []
